@@ -1,0 +1,85 @@
+//go:build verif
+
+package gemmill
+
+import (
+	"fmt"
+
+	"github.com/spf13/viper"
+
+	"github.com/dappledger/AnnChain/gemmill/archive"
+	"github.com/dappledger/AnnChain/gemmill/blockchain"
+	"github.com/dappledger/AnnChain/gemmill/consensus"
+	crypto "github.com/dappledger/AnnChain/gemmill/go-crypto"
+	"github.com/dappledger/AnnChain/gemmill/p2p"
+	"github.com/dappledger/AnnChain/gemmill/refuse_list"
+	"github.com/dappledger/AnnChain/gemmill/state"
+	"github.com/dappledger/AnnChain/gemmill/types"
+)
+
+// NewAngineVerif is NewAngine without the TCP listener and without log files
+// (build tag "verif"): everything from the databases on - state, block store,
+// reactors, consensus state, plugins - is assembled by the same methods.
+func NewAngineVerif(app types.Application, conf *viper.Viper) (angine *Angine, err error) {
+	dbs := openDBs(conf)
+	dbBackend := conf.GetString("db_backend")
+	dbDir := conf.GetString("db_dir")
+
+	genesis, err := getGenesisFile(conf)
+	if err != nil {
+		if err != GENESIS_NOT_FOUND {
+			return nil, err
+		}
+		genesis = nil
+	}
+	crypto.NodeInit(crypto.CryptoType)
+	privValidator, err := types.LoadPrivValidator(conf.GetString("priv_validator_file"))
+	if err != nil {
+		return nil, fmt.Errorf("LoadPrivValidator error: %v", err)
+	}
+	refuseList := refuse_list.NewRefuseList(dbBackend, dbDir)
+
+	// what prepareP2P does, minus the listener
+	var genesisJSON []byte
+	if genesis != nil {
+		genesisJSON = genesis.JSONBytes()
+	}
+	p2psw := p2p.NewSwitch(conf)
+	p2psw.SetExchangeData(&p2p.ExchangeData{GenesisJSON: genesisJSON})
+	p2psw.SetNodeInfo(&p2p.NodeInfo{
+		PubKey:      privValidator.GetPubKey(),
+		SigndPubKey: conf.GetString("signbyCA"),
+		Moniker:     conf.GetString("moniker"),
+		ListenAddr:  "127.0.0.1:1",
+		Version:     version,
+	})
+	p2psw.SetNodePrivKey(privValidator.GetPrivKey())
+	p2psw.SetAddToRefuselist(addToRefuselist(refuseList))
+	p2psw.SetRefuseListFilter(refuseListFilter(refuseList))
+
+	dataArchive := archive.NewArchive(dbBackend, dbDir, conf.GetInt64("threshold_blocks"))
+	eventSwitch := types.NewEventSwitch()
+	tune := &Tunes{Conf: conf, Runtime: conf.GetString("runtime")}
+	angine = &Angine{
+		Tune:          tune,
+		dbs:           dbs,
+		tune:          tune,
+		dataArchive:   dataArchive,
+		conf:          conf,
+		p2pSwitch:     p2psw,
+		eventSwitch:   &eventSwitch,
+		refuseList:    refuseList,
+		privValidator: privValidator,
+		p2pHost:       "127.0.0.1",
+		p2pPort:       1,
+		genesis:       genesis,
+	}
+	angine.app = app
+	err = angine.buildState(genesis)
+	return
+}
+
+// VerifParts exposes the assembled components to the simulation harness.
+func (a *Angine) VerifParts() (*blockchain.BlockStore, *state.State, types.EventSwitch, types.TxPool, consensus.Engine, *p2p.Switch) {
+	return a.blockstore, a.stateMachine, *a.eventSwitch, a.txPool, a.consensus, a.p2pSwitch
+}
